@@ -26,13 +26,16 @@ inline T log2(T const x)
 {
   static_assert(std::is_unsigned_v<T>, "log2 can only be used on unsigned types");
 
-  T r(1);
+  T r(0);
 
-  while ((x >> r) != 0)
+  T rest(x);
+
+  while ((rest >>= 1U) != 0)
   {
     ++r;
   }
-  return --r;
+
+  return r;
 }
 
 }
